@@ -166,8 +166,7 @@ class NuWiki:
 
                 self.revisions[meta["revid"]] = new_page
 
-        tmp = list(self.revisions.items())
-        python2sort(tmp, reverse=True)
+        tmp = python2sort(list(self.revisions.items()), reverse=True)
         for revid, page in tmp:
             title = page.title
             if title not in self.revisions:
